@@ -121,3 +121,59 @@ def rewrite(owner, name, if_conversion=False, fstrings=False, ifexp=False):
     def restore():
         setattr(owner, name, fn)
     return restore, counts
+
+
+class JoinConv(ast.NodeTransformer):
+    """"sep".join(xs) -> __symx_join("sep", xs)  (str.join is C-level and needs real str items)"""
+    def __init__(self):
+        self.n = 0
+
+    def visit_Call(self, node):
+        self.generic_visit(node)
+        f = node.func
+        if isinstance(f, ast.Attribute) and f.attr == "join" and isinstance(f.value, ast.Constant) and isinstance(f.value.value, str) and len(node.args) == 1 and not node.keywords:
+            self.n += 1
+            return ast.copy_location(ast.Call(ast.Name("__symx_join", ast.Load()), [f.value, node.args[0]], []), node)
+        return node
+
+
+def sym_join(sep, items):
+    from .seq import SStr
+    out, first = [], True
+    for it in items:
+        if not first:
+            out += [ord(c) for c in sep]
+        first = False
+        out += list(it._d) if isinstance(it, SStr) else [ord(c) for c in it]
+    return SStr._mk(out)
+
+
+def rewrite_adapter_lambda(module, name, keyword="decoder"):
+    """Recompile, from the module's CURRENT source, the lambda passed as `keyword=` in the top-level assignment `name = ...ExprAdapter(...)`
+    with f-strings and constant-separator joins made symbolic-aware, and install it on the adapter instance. Returns (restore, counts)."""
+    src = inspect.getsource(module)
+    tree = ast.parse(src)
+    lam = None
+    for st in tree.body:
+        if isinstance(st, (ast.Assign, ast.AnnAssign)):
+            tgt = st.targets[0] if isinstance(st, ast.Assign) else st.target
+            if isinstance(tgt, ast.Name) and tgt.id == name and isinstance(st.value, ast.Call):
+                for kw in st.value.keywords:
+                    if kw.arg == keyword and isinstance(kw.value, ast.Lambda):
+                        lam = kw.value
+    if lam is None:
+        raise ValueError(f"no lambda {keyword}= in the assignment of {name}")
+    t1, t2 = FStr(), JoinConv()
+    lam = t2.visit(t1.visit(lam))
+    expr = ast.fix_missing_locations(ast.Expression(lam))
+    g = module.__dict__
+    g["__symx_fstr"] = fstr
+    g["__symx_join"] = sym_join
+    fn = eval(compile(expr, f"<symx rewrite of {module.__name__}.{name}.{keyword}>", "eval"), g)
+    obj = getattr(module, name)
+    old = obj._decode
+    obj._decode = lambda o, ctx, path: fn(o, ctx)
+
+    def restore():
+        obj._decode = old
+    return restore, {"fstr": t1.n, "join": t2.n}
